@@ -95,7 +95,7 @@ type histCase struct {
 var names = []string{"a", "b", "my config", "ünï", "x&y=z", "<b>", "a", "c", "A", "My Config", "ÜNÏ", "a/b"}
 
 var valuePool = map[string][]string{
-	"bool": {"t", "f", "true", "false", "1", "0", "yes", "", "y"}, "int": {"-1", "0", "5", "80", ""}, "float": {"0", "0.005", "0.1", "1", "0.001", ""},
+	"bool": {"t", "f", "true", "false", "1", "0", "yes", "", "y"}, "int": {"-1", "0", "5", "80", ""}, "float": {"0", "0.005", "0.1", "1", "0.001", "", "0.0123456789", "0.3333333333333333", "1e-9", "0.10000000149011612"},
 	"string": {"", "main", "a|b", "x y", "ünï", "a&b=c", "k=v", "%41", "+"},
 }
 
